@@ -77,9 +77,17 @@ def compute_offsets(cursor, reference_zeta_mm):
         series, delta_z_mm
     )
 
+    # Nearest grid level: truncating the quotient, or taking the
+    # remainder, misjudges multiples of steps such as 0.1 that are
+    # not binary fractions.
+    nearest_index = (
+        None
+        if reference_zeta_mm is None
+        else int(round(reference_zeta_mm / delta_z_mm))
+    )
     reference_zeta_off_grid = (
         reference_zeta_mm is not None
-        and not np.allclose(reference_zeta_mm % delta_z_mm, 0)
+        and not np.allclose(reference_zeta_mm - nearest_index * delta_z_mm, 0)
     )
     if reference_zeta_off_grid:
         raise ValueError(
@@ -87,7 +95,7 @@ def compute_offsets(cursor, reference_zeta_mm):
             'zeta step {} mm'.format(reference_zeta_mm, delta_z_mm)
         )
     if reference_zeta_mm is not None:
-        reference_index = int(reference_zeta_mm / delta_z_mm)
+        reference_index = nearest_index
     else:
         reference_index = max(head_mapping.keys())
 
